@@ -12,6 +12,7 @@ A case is JSON:
    "children": [{"pre": k, "prog": BLOCK}, ...]}          (optional child tasks, see ["spawn", j])
   BLOCK = {"d": null|int, "body": [ITEM, ...]}
   ITEM  = ["s0"] | ["s", k] | ["aw", j] | ["blk", BLOCK]
+        | ["tblk", BLOCK]  nested block whose TimeoutError is caught by the enclosing body, which then goes on
         | ["spawn", j]   create child Python task j *here* (possibly inside timed blocks); the child sleeps
                          `pre` ticks and then runs its own block tree with its own timeouts
         | ["join", j]    await child j (un-shielded) if it was spawned
@@ -137,6 +138,15 @@ class Runner:
         kind = item[0]
         if kind == "blk":
             await self.run_block(item[1], path)
+            return
+        if kind == "tblk":
+            # a nested block whose TimeoutError is handled right here, inside the enclosing block
+            try:
+                await self.run_block(item[1], path)
+            except asyncio.TimeoutError as e:
+                self.keep.append(e)
+                self.lg("caught", path, self.now())
+                self.tags.add("inner-timeout-handled-inside-outer-block")
             return
         if kind == "spawn":
             self.spawn(item[1])
@@ -532,7 +542,7 @@ def max_time(case):
         for it in blk["body"]:
             if it[0] in ("s", "sc"):
                 s += it[1]
-            elif it[0] == "blk":
+            elif it[0] in ("blk", "tblk"):
                 s += tot(it[1])
         return s
     return (tot(case["prog"]) + sum(case.get("aux", [])) + 3
@@ -624,4 +634,4 @@ def judge(r: Runner):
 def canon_log(r):
     """all tasks' logs without block markers (used to compare with reference runs)"""
     return [(tid,) + tuple(rec) for tid in sorted(r.logs) for rec in r.logs[tid]
-            if rec[0] in ("op_start", "op_end", "prog", "tail", "swallowed")]
+            if rec[0] in ("op_start", "op_end", "prog", "tail", "swallowed", "caught")]
